@@ -707,6 +707,24 @@ theorem C09_links_correct_sources {Ls : Nat} {srcs : List (Bool × Bytes)} {sd :
     (C09_wellParented_of_valid (Gql.EndToEnd.loaded_wpSchema hl hprel T.unions)
       (Gql.EndToEnd.loaded_noEmptyTypeName hl T.names) d hvalid)
 
+/-- **C09 for the API as it is called**: prelude first, any user sources; no hypothesis about the prelude left -/
+theorem C09_links_correct_loadSchema {Ls : Nat} {user : List (Bool × Bytes)} {sd : SchemaDoc} {s : Schema}
+    (huser : ∀ src ∈ user, Lexer.Utf8.valid src.2)
+    (hps : Parser.parseSchemas Ls ((true, Gen.preludeBytes) :: user) = .ok sd)
+    (hl : Gql.Load.load sd = .ok s)
+    {L : Nat} {inp : Bytes} {d : QueryDoc} (hp : Parser.parseQuery L inp = .ok d)
+    (evs : List Event) (hw : walkDoc s.view d = some evs) (hvalid : validate defaultRules s d = .ok []) :
+    Spec.expectedLinks s d = (docDemands s d).map (Demand.render s d) ∧
+    (∀ dm ∈ docDemands s d, dm.Met s d evs) ∧
+    (∀ dm ∈ docDemands s d, dm.Present s d) :=
+  have h := C09_links_correct_sources
+    (fun src h => by
+      rcases List.mem_cons.1 h with rfl | h
+      · exact Gql.EndToEnd.Prelude.prelude_utf8
+      · exact huser src h)
+    hps hl (Gql.EndToEnd.Prelude.sources_with_prelude_declared hps) hp evs hw hvalid
+  ⟨h.1, h.2.1, h.2.2.2⟩
+
 #print axioms C09_wellParented_of_valid
 #print axioms C09_links_correct_sources
 #print axioms C09_known_root_type_of_valid
